@@ -245,6 +245,10 @@ func decodeOnce(c TotalCase) (encoded string, derr error, canaryMsg string) {
 		}
 	}
 	if derr == nil {
+		// (the caller's line may be refilled before the event is encoded)
+		for k := range line {
+			line[k] = '#'
+		}
 		encoded = root.EncodeToString()
 	}
 	return encoded, derr, canaryMsg
